@@ -190,6 +190,10 @@ structure Sess where
   captured : Option Name
   /-- server name of the `tls.Config` handed to `tls.Client` -/
   sni : Option Name
+  /-- `Session.features` — what `Session.Feature` reports as advertised: the namespaces of the
+  features lists read on the current stream; each entry is tagged "its list was read inside an
+  installed TLS layer" -/
+  features : List (Nat × Bool)
   /-- newest first -/
   trace : List Ev
 
@@ -410,6 +414,33 @@ def negotiateFeatures (cfg : FCfg) (first : Bool) (s : Sess) : Res FOut :=
     | .malformed => .stop (.err .read) s1
     | _ => .stop (.err .proto) s1
 
+/-- the namespaces `readStreamFeatures` records as advertised: every child of the list, known or
+not, up to and including one whose `Parse` fails -/
+def advertised (cfg : FCfg) : List Item → List Nat
+  | [] => []
+  | it :: rest =>
+    match lookup cfg it.id with
+    | some _ => if !it.ok then [it.id] else it.id :: advertised cfg rest
+    | none => it.id :: advertised cfg rest
+
+def advert (ids : List Nat) (t : Bool) (s : Sess) : Sess :=
+  { s with features := s.features ++ ids.map (fun id => (id, t)) }
+
+/-- what the features list about to be read will advertise (nothing if no list is delivered) -/
+def peekAdv (cfg : FCfg) (s : Sess) : List Nat :=
+  match pull s with
+  | .ok (.list items) _ => advertised cfg items
+  | _ => []
+
+def addAdv {α : Type} (ids : List Nat) (t : Bool) : Res α → Res α
+  | .ok a s => .ok a (advert ids t s)
+  | .stop w s => .stop w (advert ids t s)
+
+/-- `negotiateFeatures` together with the bookkeeping of `Session.features` (nothing between
+reading the list and the end of the call touches it, so it is added at the end) -/
+def negotiateFeaturesAdv (cfg : FCfg) (first : Bool) (s : Sess) : Res FOut :=
+  addAdv (peekAdv cfg s) s.tls (negotiateFeatures cfg first s)
+
 /-! ### negotiator.go / session.go -/
 
 /-- one call of the negotiator that is not the tee wrap: header exchange when a restart is
@@ -424,13 +455,13 @@ def step (cfg : FCfg) (fuel : Nat) (s : Sess) : Res FOut :=
   match r with
   | .stop w s' => .stop w s'
   | .ok _ s2 =>
-    match negotiateFeatures cfg s2.first { s2 with first := false } with
+    match negotiateFeaturesAdv cfg s2.first { s2 with first := false } with
     | .stop w s' => .stop w s'
     | .ok out s3 => .ok out { s3 with doRestart := out.rw != .none }
 
 /-- `negotiateSession` on a new `io.ReadWriter`: new decoder (its read-ahead is gone), the
-negotiated set is cleared -/
-def restartDec (s : Sess) : Sess := { s with buf := [], negotiated := [] }
+negotiated set and the advertised-features map are cleared -/
+def restartDec (s : Sess) : Sess := { s with buf := [], negotiated := [], features := [] }
 
 def install (rw : Rw) (s : Sess) : Sess :=
   match rw with
@@ -469,7 +500,7 @@ def init (env : Env) (state0 : Mask) (i : Input) : Sess :=
   { state := if env.conn.startsSecure then state0 ||| Secure else state0,
     tls := env.conn.startsSecure, hs := false, buf := [], clear := i.clear, prot := i.prot,
     oracle := i.oracle, negotiated := [], doRestart := true, first := true,
-    domain := env.domain, captured := env.captured, sni := env.conn.name, trace := [] }
+    domain := env.domain, captured := env.captured, sni := env.conn.name, features := [], trace := [] }
 
 /-- a whole `NewSession` call of an initiator; the trace is returned oldest first -/
 def run (cfg : Cfg) (env : Env) (state0 : Mask) (i : Input) (fuel : Nat) : List Ev × Outcome :=
@@ -482,6 +513,16 @@ def run (cfg : Cfg) (env : Env) (state0 : Mask) (i : Input) (fuel : Nat) : List 
 def capturedAfter (cfg : Cfg) (env : Env) (state0 : Mask) (i : Input) (fuel : Nat) : Option Name :=
   if state0 &&& unmodelledBits != 0 then env.captured
   else (loop cfg fuel false (init env state0 i)).1.captured
+
+/-- what `Session.Feature` reports after the call (on a session or after an error) -/
+def featuresAfter (cfg : Cfg) (env : Env) (state0 : Mask) (i : Input) (fuel : Nat) : List (Nat × Bool) :=
+  if state0 &&& unmodelledBits != 0 then []
+  else (loop cfg fuel false (init env state0 i)).1.features
+
+/-- … and whether a TLS layer is installed then -/
+def tlsAfter (cfg : Cfg) (env : Env) (state0 : Mask) (i : Input) (fuel : Nat) : Bool :=
+  if state0 &&& unmodelledBits != 0 then false
+  else (loop cfg fuel false (init env state0 i)).1.tls
 
 /-- one session of a history: everything but the feature value -/
 structure SessionSpec where
